@@ -300,6 +300,11 @@ class FrameChecker:
                     # x += [..] mutates a list in place
                     if prov(s.target)[0] == ARG and isinstance(s.value, (ast.List, ast.ListComp)):
                         findings.append((s.lineno, "in-place list extension", ast.unparse(s)[:120]))
+                    elif prov(s.target)[0] == ARG:
+                        # `y = arg.field; y += k` rebinds y for Python numbers, jax arrays and tracers, but updates the
+                        # argument's own buffer when the field holds a mutable array (a NumPy leaf of a restored state)
+                        findings.append((s.lineno, "augmented assignment on an alias of an argument (in place for a mutable array)",
+                                         ast.unparse(s)[:120]))
             elif isinstance(s, ast.Delete):
                 for x in s.targets:
                     if isinstance(x, (ast.Subscript, ast.Attribute)):
